@@ -64,3 +64,54 @@ Definition case := (option (list (option Z)) * (Z * Z * Z * Z) * bool)%type.
 Definition agrees (c : case) : bool := let '(ds, (s, e, a, st), f) := c in implb f (check1 ds s e a st).
 Fixpoint disagreeing (i : nat) (l : list case) : list nat :=
   match l with [] => [] | c :: t => (if agrees c then [] else [i]) ++ disagreeing (S i) t end.
+
+(* ---------------------------------------------------------------- collapse_slice2_rule with several sliced axes.
+   ONNX Slice with k entries in starts/ends/axes (all steps 1) slices the listed axes one after another; an entry is
+   (normalised axis, start, end).  The model does not require the axes to be distinct. *)
+Definition spec := (nat * Z * Z)%type.
+Fixpoint mslice (specs : list spec) (t : tensor) : tensor :=
+  match specs with
+  | [] => t
+  | (k, s, e) :: r => mslice r (along k (slice1 s e) t)
+  end.
+Fixpoint set_dim (k : nat) (v : Z) (l : list Z) : list Z :=
+  match l, k with
+  | [], _ => []
+  | _ :: t, O => v :: t
+  | x :: t, S k' => x :: set_dim k' v t
+  end.
+Definition step_shape (sh : list Z) (sp : spec) : list Z :=
+  let '(k, s, e) := sp in set_dim k (slice_len s e (nth k sh 0)) sh.
+(* the shape of the Slice output *)
+Fixpoint mshape (specs : list spec) (sh : list Z) : list Z :=
+  match specs with
+  | [] => sh
+  | sp :: r => mshape r (step_shape sh sp)
+  end.
+
+(* _same_shape: declared shapes of data and of the Slice output (None: unknown rank); a dim is static, a named symbol or
+   unknown; steps = the constant `steps` operand (None: not a constant) *)
+Inductive sdim := DSt (d : Z) | DSy (name : nat) | DUn.
+Definition sdim_eqb (a b : sdim) : bool :=
+  match a, b with DSt x, DSt y => Z.eqb x y | DSy x, DSy y => Nat.eqb x y | _, _ => false end.
+Fixpoint sshape_eqb (a b : list sdim) : bool :=
+  match a, b with [], [] => true | x :: a', y :: b' => sdim_eqb x y && sshape_eqb a' b' | _, _ => false end.
+Definition check2 (dshape oshape : option (list sdim)) (steps : option (list Z)) : bool :=
+  match dshape, oshape, steps with
+  | Some ds, Some os, Some st => forallb (Z.eqb 1) st && sshape_eqb ds os
+  | _, _, _ => false
+  end.
+(* what a declared shape says about a runtime shape under a binding of the symbol names *)
+Fixpoint denotes (val : nat -> Z) (decl : list sdim) (sh : list Z) : Prop :=
+  match decl, sh with
+  | [], [] => True
+  | DSt d :: decl', x :: sh' => x = d /\ denotes val decl' sh'
+  | DSy n :: decl', x :: sh' => x = val n /\ denotes val decl' sh'
+  | DUn :: decl', _ :: sh' => denotes val decl' sh'
+  | _, _ => False
+  end.
+
+Definition case2 := (option (list sdim) * option (list sdim) * option (list Z) * bool)%type.
+Definition agrees2 (c : case2) : bool := let '(d, o, st, f) := c in implb f (check2 d o st).
+Fixpoint disagreeing2 (i : nat) (l : list case2) : list nat :=
+  match l with [] => [] | c :: t => (if agrees2 c then [] else [i]) ++ disagreeing2 (S i) t end.
